@@ -17,6 +17,7 @@ func TestC01(t *testing.T) {
 	st.SetRule(ruleC01)
 	rapid.Check(t, func(rt *rapid.T) {
 		w := newWorld("C01", worldCfg{V1: true, V2: true, WhiteBox: true, GetKeys: true})
+		w.drawCheckPeriod(rt)
 		s := drawSchema(rt, "tbl", schemaCfg{KeyTypes: []string{"S", "S", "N", "B"}, MaxIndexes: 1})
 		o := avOpts(3, true)
 		g := newTgen(rt, s, o, rapid.IntRange(3, 6).Draw(rt, "poolSize"))
@@ -132,8 +133,9 @@ func TestC01(t *testing.T) {
 				fail(f)
 			},
 			"": func(rt *rapid.T) {
-				fail(w.check())
+				fail(w.maybeCheck())
 			},
 		})
+		fail(w.check())
 	})
 }
